@@ -9,10 +9,12 @@ import (
 
 	"pgregory.net/rapid"
 
+	"verif/internal/ast"
 	"verif/internal/gen"
 	"verif/internal/harness"
 	"verif/internal/pool"
 	"verif/internal/refcheck"
+	"verif/internal/refsem"
 	"verif/internal/wire"
 )
 
@@ -143,7 +145,41 @@ func genC19(rt *rapid.T, h *harness.H) interface{} {
 	d := gen.D{T: rt}
 	c := &caseC19{}
 	np := d.Int(2, 5, "nprogs")
-	for i := 0; i < np; i++ {
+	if d.Chance(45, "family") {
+		// a family: one program and variants of it that keep its names (type, function, channel
+		// names) but change a definition or a term, so that whatever a run leaves behind under a name
+		// meets another meaning of that name
+		p, _ := genProgramOpt(rt, h, true)
+		if p == nil {
+			return nil
+		}
+		c.Progs = append(c.Progs, progC19{Text: p.Text(nil), Class: "accept", Contraction: hasContraction(p)})
+		for i := 1; i < np; i++ {
+			kind := d.Of([]string{"typedef-change", "typedef-change", "ann-inequivalent", "wrong-label", "swap-send-args", "ret-mode"}, "famkind")
+			q, _, ok := d.Mutate(p, kind)
+			if !ok {
+				continue
+			}
+			v, _ := refcheck.Program(q, true)
+			if v.Unknown {
+				continue
+			}
+			cl := "reject"
+			if v.Accept {
+				cl = "accept"
+				if r := refsemOK(q); !r {
+					continue
+				}
+			}
+			c.Progs = append(c.Progs, progC19{Text: q.Text(nil), Class: cl, Contraction: hasContraction(q)})
+		}
+		np = len(c.Progs)
+		if np < 2 {
+			return nil
+		}
+		h.S.Count("family_history")
+	}
+	for i := len(c.Progs); i < np; i++ {
 		switch d.Pick(5, "progclass") {
 		case 0:
 			base := func() string { return (&gen.Syn{D: d}).Program().Text(&astStyle) }
@@ -197,6 +233,11 @@ func genC19(rt *rapid.T, h *harness.H) interface{} {
 	}
 	h.S.Sample(map[string]interface{}{"programs": len(c.Progs), "steps": c.Steps, "first_program": short(c.Progs[0].Text, 300)})
 	return c
+}
+
+func refsemOK(p *ast.Program) bool {
+	r := refsem.Run(p, 50000)
+	return r.Error == "" && !r.OutOfBudget && r.Stuck == 0
 }
 
 func TestC19(t *testing.T) {
